@@ -138,6 +138,38 @@ Theorem reported_rows :
 Proof. reflexivity. Qed.
 Print Assumptions reported_rows.
 
+(* ---- 4b. per element: reported pump heat = mean-c_p heat of the same temperature step + discretisation term *)
+Theorem pump_heat_per_element : forall m tout (cp : R -> R) tin,
+  cp_res_res_qext_w m tout cp tin =
+  m * ((cp tin + cp tout) / 2) * (tout - tin) + (1 / 2) * m * (cp tout - cp tin) * (tout + tin).
+Proof. exact pump_heat_per_element_lemma. Qed.
+Print Assumptions pump_heat_per_element.
+
+Theorem pump_heat_constant_cp : forall m tout c tin,
+  cp_res_res_qext_w m tout (fun _ => c) tin = m * c * (tout - tin) /\
+  cp_res_res_qext_w m tout (fun _ => c) tin = - (m * c * cp_res_res_deltat_k m tout (fun _ => c) tin).
+Proof. exact pump_heat_constant_cp_lemma. Qed.
+Print Assumptions pump_heat_constant_cp.
+
+(* ---- 2b. the mode theorems need flow along the declared direction (m > 0: then |m| = m in the thermal row).
+        create_heat_consumer does not enforce controlled_mdot > 0; for m < 0 the faithful model REFUTES the
+        set-point clause: the reported temperature difference is minus the set-point, the outlet temperature is
+        2 T_in - T_return (replayed on the implementation by tools/props/c11.py: known finding
+        C11-negative-controlled-mdot) *)
+Theorem consumer_modes_refuted_for_negative_mdot : forall m Q0 tout DT TR cp tin,
+  m < 0 -> cbar cp tin tout <> 0 ->
+  (hc_bt_QEXT m Q0 tout DT 1 TR cp tin = Rabs m * cbar cp tin tout * (tin - tout) -> tin - tout = - DT) /\
+  (hc_bt_QEXT m Q0 tout DT 2 TR cp tin = Rabs m * cbar cp tin tout * (tin - tout) -> tout = 2 * tin - TR).
+Proof.
+  intros. split; intros; [eapply mode_MF_DT_negative_mdot | eapply mode_MF_TR_negative_mdot]; eauto.
+Qed.
+Print Assumptions consumer_modes_refuted_for_negative_mdot.
+
+Theorem consumer_duty_equation_for_positive_mdot : forall cp m Q tin tout,
+  0 < m -> (Q = Rabs m * cbar cp tin tout * (tin - tout) <-> Q = m * cbar cp tin tout * (tin - tout)).
+Proof. exact duty_abs_pos. Qed.
+Print Assumptions consumer_duty_equation_for_positive_mdot.
+
 (* ---- 5. loop closure (partial: series loop): sum of mean-c_p duties = reported pump heat + discretisation *)
 Theorem loop_energy_closure_partial : forall cp m l Tflow Treturn,
   chained Tflow l Treturn ->
@@ -200,6 +232,27 @@ Example loop_example :
   chained 350 [(350, 348); (348, 320); (320, 319)] 319 /\
   duties (fun _ => 4000) 2 [(350, 348); (348, 320); (320, 319)] = 2 * 4000 * 31.
 Proof. simpl. split; [repeat split|]. unfold cbar. field. Qed.
+
+Example consumer_mode_hypotheses_satisfiable :
+  let cp := fun _ : R => 4000 in
+  (* MF_DT: m = 1/2, DT = 20: T_in = 350, T_out = 330 is the thermal fixed point *)
+  hc_bt_QEXT (1/2) 0 330 20 1 0 cp 350 = (1/2) * cbar cp 350 330 * (350 - 330) /\
+  (* MF_TR: T_return = 320 *)
+  hc_bt_QEXT (1/2) 0 320 0 2 320 cp 350 = (1/2) * cbar cp 350 320 * (350 - 320) /\
+  (* QE_DT: Q = 40000, DT = 20: m = 40000 / (4000 * 20) = 1/2 reproduces itself, duty balanced *)
+  hc_bh_MDOTINIT (1/2) 40000 330 20 4 cp 350 = 1/2 /\
+  hc_bt_QEXT (1/2) 40000 330 20 4 0 cp 350 = (1/2) * cbar cp 350 330 * (350 - 330) /\
+  (* QE_TR: Q = 60000, T_out = T_return = 320, m = 1/2: hydraulic residual zero *)
+  hc_ah_LOAD_VEC_BRANCHES (1/2) 60000 320 5 cp 350 = 0 /\
+  (* exchanger duty: flowing, zero length *)
+  flows (1/2) /\ 0 * 0 = 0 /\ branch_cp_cp 330 cp 350 * Rabs (1/2) <> 0.
+Proof.
+  cbv zeta. unfold hc_bt_QEXT, hc_bh_MDOTINIT, hc_ah_LOAD_VEC_BRANCHES, branch_cp_cp, cbar, flows. cbv zeta.
+  rewrite (Rabs_pos_eq (1/2)) by lra.
+  repeat match goal with |- context [Reqb ?a ?b] => destruct (Reqb_spec a b); try lra end.
+  repeat match goal with |- context [Rleb ?a ?b] => destruct (Rleb_spec a b); try lra end.
+  simpl. repeat split; try lra; field.
+Qed.
 
 Example mode_guards_satisfiable :
   admissible (mkPat true false true false) = true /\ mode_of hc_mode_assignments (mkPat true false true false) = 1%Z /\
